@@ -20,7 +20,8 @@ from mc.alphabets import (BOUNDARY_SIZES_Q, TEXTS, METAS, DIFFS, ENCODINGS, DIFF
 from mc.explore import bfs, freeze
 from mc.observe import (run_writer, read_all, freeze_writer, freeze_reader,
                         rec_content, site_of, typed_eq,
-                        module_globals_snapshot)
+                        module_globals_snapshot, fresh, apply_call,
+                        rec_core)
 
 PROBE_TEXT = 'é\n'
 PROBE_META = {'k': 'é'}
@@ -962,3 +963,173 @@ def wr_run_scale_unit(unit, tier, oracle, acc_cls):
         acc.outcome('ok' if not viols else 'violation')
     acc.sample({'scale_configuration': cfgs[unit[1][0][0]]}, 1)
     return acc
+
+
+# ---------------------------------------------------------- interleavings
+# Two threads, each writing its own file with its own DiffXWriter and then
+# reading it back with its own DiffXReader, under the controlled scheduler
+# of mc/sched.py (scheduling points: every write and every read on the
+# threads' own streams). The threads share nothing but the library; any
+# interference goes through module-level state of the library.
+
+import threading as _threading
+
+_TCTL = {}
+
+
+def _tpoint():
+    ctl = _TCTL.get(_threading.get_ident())
+    if ctl is not None:
+        ctl.point()
+
+
+class _PointSink(object):
+    def __init__(self):
+        self.buf = bytearray()
+
+    def write(self, b):
+        _tpoint()
+        self.buf += b
+        return len(b)
+
+    def flush(self):
+        pass
+
+    def getvalue(self):
+        return bytes(self.buf)
+
+
+class _PointSource(object):
+    def __init__(self, data):
+        import io
+        self._s = io.BytesIO(data)
+
+    def read(self, *a):
+        _tpoint()
+        return self._s.read(*a)
+
+    def seek(self, *a):
+        return self._s.seek(*a)
+
+    def tell(self):
+        return self._s.tell()
+
+    def close(self):
+        self._s.close()
+
+
+THREAD_DOCS = [
+    ('utf-8', [['preamble', 'first\nfile é\n', None, 4, None, None],
+               ['meta', {'k': ['v', 1]}, None], ['change', None],
+               ['file', None], ['meta', {'path': 'a'}, None],
+               ['diff', b'--- a\n+++ b\n@@ -1 +1 @@\n-x\n+y\n', None, None,
+                None]]),
+    ('utf-16', [['preamble', 'second\r\nfile\r\n', None, 2, 'dos',
+                 'text/markdown'], ['change', 'latin-1'],
+                ['preamble', 'é\n', None, 0, None, None], ['file', None],
+                ['meta', {'path': 'b', 'z': None}, 'utf-32'],
+                ['diff', 'q\r\n'.encode('utf-32'), 'text', 'utf-32',
+                 None]]),
+    ('latin-1', [['change', None], ['file', None],
+                 ['meta', {'path': 'ç'}, None],
+                 ['diff', b'\x00\xff\n', 'binary', None, 'unix'],
+                 ['file', 'utf-8'], ['meta', {'path': 'd'}, None]]),
+]
+
+
+def _thread_roundtrip(doc):
+    root, calls = doc
+
+    def body(ctl):
+        _TCTL[_threading.get_ident()] = ctl
+        try:
+            from pydiffx import DiffXWriter, DiffXReader
+            sink = _PointSink()
+            w = DiffXWriter(sink, encoding=fresh(root))
+            for c in calls:
+                apply_call(w, c)
+            data = sink.getvalue()
+            recs = [rec_core(r) for r in DiffXReader(_PointSource(data))]
+            return data, freeze(recs)
+        finally:
+            _TCTL.pop(_threading.get_ident(), None)
+    return body
+
+
+def thread_units():
+    n = len(THREAD_DOCS)
+    return [('threads', a, b) for a in range(n) for b in range(a, n)]
+
+
+def run_thread_unit(unit, tier, acc_cls):
+    from mc import sched
+    from mc.explore import Acc
+    acc = acc_cls()
+    _, ia, ib = unit
+    da, db = THREAD_DOCS[ia], THREAD_DOCS[ib]
+    want = [_thread_roundtrip(da)(None), _thread_roundtrip(db)(None)]
+    ref = [spec.serialize(d[1], d[0])[0] for d in (da, db)]
+    pre = []
+    for t in range(2):
+        if want[t][0] != ref[t]:
+            pre.append(('sequential-bytes-differ-from-reference', 'doc %d'
+                        % (ia, ib)[t]))
+
+    def make():
+        return [_thread_roundtrip(da), _thread_roundtrip(db)], None
+
+    def check(x, ctx):
+        v = []
+        for t in range(2):
+            if x.errors[t] is not None:
+                v.append(('interleaved-roundtrip-raised:%s:%s'
+                          % (type(x.errors[t]).__name__,
+                             site_of(x.errors[t])), repr(x.errors[t])))
+            elif x.results[t] != want[t]:
+                what = 'bytes' if x.results[t][0] != want[t][0] else 'records'
+                v.append(('interleaved-roundtrip-differs:%s' % what,
+                          'thread %d produced different %s than when run '
+                          'alone' % (t, what)))
+        acc.evals += 1
+        acc.transitions += len(x.trace)
+        acc.validated += 1
+        acc.nontrivial += 1
+        acc.outcome('ok' if not v else 'violation')
+        return v
+    n, ntraces, viols, capped = sched.explore(
+        make, check, bound=2 if tier == 'quick' else 3)
+    acc.states = ntraces
+    for key, msg in pre:
+        acc.violation(key, msg, {'kind': 'none'})
+    seen = set()
+    for trace, choices, (key, msg) in viols:
+        if key in seen:
+            continue
+        seen.add(key)
+        acc.violation(key, '%s\ntwo threads writing and reading documents '
+                      '%d and %d; schedule %r' % (msg, ia, ib, list(trace)),
+                      {'kind': 'threads', 'docs': [ia, ib],
+                       'choices': list(choices)})
+    acc.sample({'thread_documents': [ia, ib], 'executions': n,
+                'distinct_schedules': ntraces}, 1)
+    return acc
+
+
+def replay_threads(payload):
+    from mc import sched
+    ia, ib = payload['docs']
+    da, db = THREAD_DOCS[ia], THREAD_DOCS[ib]
+    want = [_thread_roundtrip(da)(None), _thread_roundtrip(db)(None)]
+    x = sched.Execution([_thread_roundtrip(da), _thread_roundtrip(db)],
+                        payload['choices']).run()
+    out = []
+    for t in range(2):
+        if x.errors[t] is not None:
+            out.append(('interleaved-roundtrip-raised:%s:%s'
+                        % (type(x.errors[t]).__name__, site_of(x.errors[t])),
+                        repr(x.errors[t])))
+        elif x.results[t] != want[t]:
+            what = 'bytes' if x.results[t][0] != want[t][0] else 'records'
+            out.append(('interleaved-roundtrip-differs:%s' % what,
+                        'thread %d' % t))
+    return out
